@@ -54,6 +54,7 @@ pub fn gen(seed: u64, _tier: Tier) -> ScenarioSpec {
     let mut spec = gen::base_spec(P, "S1", seed, rec);
     spec.compression = *rng.pick(&[Compression::None, Compression::Lz4, Compression::Zstd]);
     spec.sink = gen::gen_sink(&mut rng, false);
+    spec.knobs.insert("prelude".into(), gen_prelude(&mut rng, &[1, 2, 4, 5], 6));
     spec
 }
 
@@ -70,6 +71,7 @@ pub fn run(spec: &ScenarioSpec, ctx: &mut Ctx) -> Result<(), Violation> {
     ctx.probe_if(spec.recorder.force_gecko && m.gecko.is_some(), "Gecko list in a 3.0-3.2 game");
     ctx.probe_if(!spec.recorder.extras.trailing.is_empty() && !newer, "longer Game Start/End block at or below the ceiling");
     ctx.shape("trailing", spec.recorder.extras.trailing.len() as u64);
+    prelude(spec.knob("prelude"), spec.seed, &m, ctx);
     let Some(game) = s1_read(P, spec, &m, ctx, false)? else { return Ok(()) };
     let w1 = write_slp(&game, &spec.sink);
     note_write(ctx, &w1);
